@@ -308,5 +308,7 @@ def selection_rate(y_true, y_pred, *, pos_label: Any = 1, sample_weight=None) ->
     s_w = np.ones(len(selected))
     if sample_weight is not None:
         s_w = _convert_to_ndarray_and_squeeze(sample_weight)
+        # narrow integer weights (uint8, int8, ...) must not wrap around in the dot product
+        s_w = s_w.astype(np.result_type(s_w.dtype, np.float64))
 
     return np.dot(selected, s_w) / s_w.sum()
